@@ -98,7 +98,7 @@ class Module(object):
                     continue
                 m = re.match(r"(@[\w.$]+) = .*?(?:global|constant) (.*)$", line)
                 if m:
-                    self.globals[m.group(1)] = m.group(2)
+                    self.globals[m.group(1)] = re.sub(r",\s*align \d+\s*$", "", m.group(2))
                     continue
                 m = re.match(r"declare .*@([\w.$]+)\(", line)
                 if m:
